@@ -5,6 +5,7 @@ import (
 	"go/constant"
 	"go/token"
 	"go/types"
+	"sort"
 	"strings"
 )
 
@@ -312,3 +313,5 @@ func clauseBuilds(info *types.Info, cc *ast.CaseClause, name string) bool {
 	}
 	return found
 }
+
+func sortStrings(s []string) { sort.Strings(s) }
